@@ -42,7 +42,7 @@ def cases(tier, seed):
                 for obj in ("mll", "loo"):
                     b = rnd.choice(BATCH)
                     yield {
-                        "kernel": kern, "mean": rnd.choice(["zero", "constant", "linear", "constant_constrained"]), "lik": lik, "n": rnd.choice([1, 2, 5, 9]), "d": rnd.choice([1, 2]),
+                        "kernel": kern, "mean": rnd.choice(["zero", "constant", "linear", "constant_constrained", "linear_nobias"]), "lik": lik, "n": rnd.choice([1, 2, 5, 9]), "d": rnd.choice([1, 2]),
                         "batch": b, "priors": rnd.choice(["none", "independent", "shared", "independent"]), "objective": obj,
                         "path": rnd.choice(["cholesky", "default", "default"]), "seed": rnd.randrange(10**6),
                         # how the priors were registered (closure / parameter name) and whether the objective is evaluated on
